@@ -26,6 +26,97 @@ func init() {
 	})
 }
 
+// c20anyOf: every return of f is a constant; true exactly on the true edge of a match call, false elsewhere (and both occur).
+func c20anyOf(f *ssa.Function, isMatch func(ssa.Value) bool) (okT, okF bool) {
+	bad := false
+	for _, rcase := range core.ReturnCases(f) {
+		k, isK := core.Resolve(rcase.Vals[0]).(*ssa.Const)
+		if !isK {
+			bad = true
+			continue
+		}
+		onMatch := false
+		for _, cnd := range rcase.Facts {
+			nrm := core.Normalize(cnd)
+			if isMatch(nrm.V) && nrm.True {
+				onMatch = true
+			}
+		}
+		switch {
+		case isTrueConst(k) && onMatch:
+			okT = true
+		case !isTrueConst(k) && !onMatch:
+			okF = true
+		default:
+			bad = true
+		}
+	}
+	return okT && !bad, okF
+}
+
+func c20anyOfDelegated(p *core.Prog, f *ssa.Function, isMatch func(ssa.Value) bool) (bool, bool) {
+	var call *ssa.Call
+	ok := true
+	core.Instrs(f, func(ins ssa.Instruction) {
+		r, isR := ins.(*ssa.Return)
+		if !isR || r.Block() == f.Recover {
+			return
+		}
+		cl, isC := core.Resolve(core.RetVals(r)[0]).(*ssa.Call)
+		if !isC || (call != nil && call != cl) {
+			ok = false
+			return
+		}
+		call = cl
+	})
+	if !ok || call == nil {
+		return false, false
+	}
+	g := core.Callee(&call.Call)
+	if g == nil || !p.InRepo(g) || len(g.Blocks) == 0 {
+		return false, false
+	}
+	// the predicate argument: a closure every return of which is the match call itself
+	pi := -1
+	for i, a := range call.Call.Args {
+		mc, isMC := core.Resolve(a).(*ssa.MakeClosure)
+		if !isMC {
+			continue
+		}
+		pf := mc.Fn.(*ssa.Function)
+		all, n := true, 0
+		core.Instrs(pf, func(ins ssa.Instruction) {
+			if r, isR := ins.(*ssa.Return); isR && r.Block() != pf.Recover {
+				n++
+				if len(r.Results) != 1 || !isMatch(core.Resolve(r.Results[0])) {
+					all = false
+				}
+			}
+		})
+		if all && n > 0 {
+			pi = i
+		}
+	}
+	if pi < 0 || pi >= len(g.Params) {
+		return false, false
+	}
+	// the members: some argument is the receiver's member list
+	members := false
+	for _, a := range call.Call.Args {
+		if strings.HasPrefix(core.FieldKey(core.Resolve(a)), "SumType.") || strings.HasPrefix(core.FieldKey(a), "SumType.") {
+			members = true
+		}
+	}
+	if !members {
+		return false, false
+	}
+	prm := g.Params[pi]
+	return c20anyOf(g, func(v ssa.Value) bool {
+		cl, isC := v.(*ssa.Call)
+		return isC && !cl.Call.IsInvoke() && core.Resolve(cl.Call.Value) == ssa.Value(prm)
+	})
+}
+
 func runC20(c *core.Ctx) {
 	p := c.P
 	c.Rule("R1", "Compose/Pipe recursion scheme and application order", 2)
@@ -210,31 +301,16 @@ func runC20(c *core.Ctx) {
 		c.Unknown("R6", "SumType.Matches", "-", "method not found")
 	} else {
 		// any-of: returns true on the Matches edge inside the loop, false after the loop
-		okT, okF := false, false
-		bad := false
-		for _, rcase := range core.ReturnCases(f) {
-			k, isK := core.Resolve(rcase.Vals[0]).(*ssa.Const)
-			if !isK {
-				bad = true
-				continue
-			}
-			onMatch := false
-			for _, cnd := range rcase.Facts {
-				nrm := core.Normalize(cnd)
-				if inv, isC := nrm.V.(*ssa.Call); isC && inv.Call.IsInvoke() && inv.Call.Method.Name() == "Matches" && nrm.True {
-					onMatch = true
-				}
-			}
-			switch {
-			case isTrueConst(k) && onMatch:
-				okT = true
-			case !isTrueConst(k) && !onMatch:
-				okF = true
-			default:
-				bad = true
-			}
+		isMatches := func(v ssa.Value) bool {
+			inv, isC := v.(*ssa.Call)
+			return isC && inv.Call.IsInvoke() && inv.Call.Method.Name() == "Matches"
 		}
-		okT = okT && !bad
+		okT, okF := c20anyOf(f, isMatches)
+		if !okT || !okF {
+			// delegated: `return anyOf(func(t) bool { return t.Matches(value...) }, members...)` where the library's
+			// combinator is itself an any-of over calls of its predicate parameter
+			okT, okF = c20anyOfDelegated(p, f, isMatches)
+		}
 		c.Check(okT && okF, "R6", "SumType.Matches", p.Pos(f.Pos()), "true as soon as one member type matches, false after all were tried", "SumType.Matches is not an any-of over its member types")
 	}
 	if f := p.Method(p.Fpgo, "ProductType", "Matches"); f == nil {
